@@ -36,7 +36,9 @@ PROPS = {
                 assumptions=["A-PI 3 < pi < 4 (only positivity is used)", "SLM-mask DMM side effect of _add is excluded by precondition (no pending SLM mask DMM)"]),
     "C13": dict(lemmas=[], not_decided=["acceptance direction (mode allows => returns) beyond the guards", "declare_channel / config_slm_mask typestate (bounded stand-in only)"],
                 assumptions=[]),
-    "C15": dict(lemmas=[], not_decided=["emulated populations under drift correction (QuTiP)", "closest off-detuning option (numpy argmin; bounded stand-in)"],
+    "C15": dict(lemmas=["L-lpsi-agree"], not_decided=["emulated populations under drift correction (QuTiP): only the drift bookkeeping is specified (the correction covers the time since the last real pulse "
+                                                      "without gap or overlap) and proved for modify_eom_setpoint; enable_eom_mode / disable_eom_mode / add_eom_pulse drift terms: bounded stand-in",
+                                                      "closest off-detuning option (numpy argmin; bounded stand-in)"],
                 assumptions=["A-EOMBW"]),
     "C16": dict(lemmas=[], not_decided=["Blackman / Kaiser / Interpolated numerics, from_max_val, __eq__ vs isclose, finiteness: bounded stand-in (durations 1..40 exhaustive)",
                                         "floating-point range of the phase modulo (outside A-REAL)"], assumptions=["A-NUMPY elementwise array arithmetic, np.ones/arange/clip"]),
